@@ -1,6 +1,6 @@
 (* Proofs/FilterSplit.v — the split-unit filter path (ConvertSplitUnitSection::new_with_filter) on a .dwo section
-   with ANY number of units (C19): what it emits, and which references it resolves although the target is
-   never emitted. *)
+   with ANY number of units (C19), as repaired (FIXCOMMIT: only the offsets of the converted unit are reserved):
+   what it emits, no reference to a DIE that is never emitted, a reference into another unit is an error. *)
 From Coq Require Import List NArith ZArith Bool Lia.
 Require Import GV.Base.Res GV.Base.Ints GV.Spec.Graph GV.Model.Filter GV.Spec.FilterSpec GV.Model.FilterAttrs.
 Require Import GV.Proofs.FilterProofs GV.Proofs.FilterEdges GV.Proofs.FilterConv GV.Proofs.FilterTol GV.Proofs.FilterBounds.
@@ -33,6 +33,9 @@ Proof.
   rewrite (cu_entries_strip _ _ _ _ _ E). cbn [bind]. now apply IH.
 Qed.
 
+Lemma own_offsets_in : forall u S x, In x (own_offsets u S) <-> In x S /\ in_unit u x = true.
+Proof. intros u S x. unfold own_offsets. rewrite filter_In. unfold in_unit. tauto. Qed.
+
 Lemma split_units_full : forall rf (dbg : bool) (req : N -> bool) (u0 : unitd) (us : list unitd),
   wf_offsets (u0 :: us) -> wf_layout (u0 :: us) ->
   exists S out,
@@ -45,7 +48,7 @@ Proof.
   destruct (filtered_ids rf dbg req (u0 :: us) Hwf Hlay) as [S [ids [HS [Hsort [Hin _]]]]].
   assert (Hvalid : forall x, In x S -> f_valid (u0 :: us) x).
   { intros x Hx. apply Hin in Hx. eapply reach_valid; eauto. }
-  destruct (convert_units_tol_char (root_off u0 :: S) [u0] []) as [out [Hout Hfst]].
+  destruct (convert_units_tol_char (root_off u0 :: own_offsets u0 S) [u0] []) as [out [Hout Hfst]].
   exists S, out. split; [exact HS|]. split.
   { unfold convert_split_filtered_tol. rewrite HS. exact Hout. }
   split.
@@ -53,56 +56,90 @@ Proof.
     unfold section_offsets. cbn [flat_map]. rewrite app_nil_r, filter_In, mem_n_iff, in_map_iff. split.
     + intros [[[e par] [Hx Hp]] Hm]. cbn [fst] in Hx. subst x.
       assert (Hocc : occurs (u0 :: us) u0 e par) by (split; [now left|exact Hp]).
-      destruct Hlay as [Hord Hins]. destruct (Hins _ _ _ Hocc) as [H1 H2].
-      split.
-      * destruct Hm as [Hr|Hs]; [|exact Hs]. exfalso.
-        eapply (valid_not_root (u0 :: us)); [split; eauto| |exists u0; split; [now left|symmetry; exact Hr]].
-        exists u0, e, par. auto.
-      * apply in_unit_iff. unfold sec, unit_end. lia.
+      destruct Hm as [Hr|Hs]; [|now apply own_offsets_in in Hs]. exfalso.
+      eapply (valid_not_root (u0 :: us)); [exact Hlay| |exists u0; split; [now left|symmetry; exact Hr]].
+      exists u0, e, par. auto.
     + intros [Hs Hu]. destruct (Hvalid _ Hs) as [u' [e' [par' [Hocc' ->]]]].
       assert (Hu' : in_unit u' (sec u' (e_off e')) = true).
       { destruct Hlay as [Hord Hins]. destruct (Hins _ _ _ Hocc') as [H1 H2]. apply in_unit_iff. unfold sec, unit_end. lia. }
       assert (u0 = u').
       { eapply ordered_unit_unique; [exact (proj1 Hlay)|now left|apply Hocc'|exact Hu|exact Hu']. }
-      subst u'. split; [exists (e', par'); split; [reflexivity|apply Hocc']|now right].
+      subst u'. split; [exists (e', par'); split; [reflexivity|apply Hocc']|].
+      right. apply own_offsets_in. auto.
   - intros out' H. unfold convert_split_filtered in H. rewrite HS in H. cbn [bind] in H.
     apply convert_units_strip in H. rewrite Hout in H. now inversion H.
 Qed.
 
-(* every reference the strict split conversion resolves for an emitted DIE names the root, an emitted DIE, or -
-   the known class - a reserved DIE of ANOTHER unit of the .dwo section, which is never emitted *)
-Lemma split_refs_full : forall (dbg : bool) (req : N -> bool) (u0 : unitd) (us : list unitd) S out,
+(* every reference the strict split conversion resolves for an emitted DIE names the root DIE or an emitted DIE *)
+Lemma split_refs_full : forall (dbg : bool) (req : N -> bool) (u0 : unitd) (us : list unitd) out,
   wf_offsets (u0 :: us) -> wf_layout (u0 :: us) ->
-  reserved filter_refs dbg req (u0 :: us) = Ok S ->
   convert_split_filtered filter_refs dbg req (u0 :: us) = Ok out ->
   forall e par s y, In (e, par) (unit_pairs u0) -> In (sec u0 (e_off e)) (map fst out) ->
     In s (e_sites e) -> In y (conv_refs u0 s) ->
-    y = root_off u0 \/ In y (map fst out) \/ split_foreign u0 S y = true.
+    y = root_off u0 \/ In y (map fst out).
 Proof.
-  intros dbg req u0 us S out Hwf Hlay HS Hrun e par s y Hp He Hs Hy.
-  destruct (split_units_full filter_refs dbg req u0 us Hwf Hlay) as [S' [out' [HS' [_ [Hchar Heq]]]]].
-  rewrite HS in HS'. inversion HS'; subst S'. rewrite (Heq _ Hrun) in *. clear Heq.
+  intros dbg req u0 us out Hwf Hlay Hrun e par s y Hp He Hs Hy.
+  destruct (split_units_full filter_refs dbg req u0 us Hwf Hlay) as [S [out' [HS [_ [Hchar Heq]]]]].
+  rewrite (Heq _ Hrun) in *. clear Heq.
   unfold convert_split_filtered in Hrun. rewrite HS in Hrun. cbn [bind] in Hrun.
-  assert (HeS : In (sec u0 (e_off e)) S) by (apply Hchar in He; tauto).
   assert (Hraw : exists r, In r (unit_raw u0) /\ r_ent r = e).
   { assert (H : In e (map r_ent (unit_raw u0))).
     { rewrite unit_raw_ents. apply in_map_iff. exists (e, par). auto. }
     apply in_map_iff in H. destruct H as [r [Hr Hin]]. eauto. }
   destruct Hraw as [r [Hr Hre]].
-  assert (Hm : mem_n (ent_sec u0 r) (root_off u0 :: S) = true).
-  { apply mem_n_iff. right. unfold ent_sec. now rewrite Hre. }
+  assert (Hm : mem_n (ent_sec u0 r) (root_off u0 :: own_offsets u0 S) = true).
+  { apply mem_n_iff. right. unfold ent_sec. rewrite Hre. apply own_offsets_in. now apply Hchar. }
   pose proof (convert_units_sites _ _ _ _ Hrun u0 r (or_introl eq_refl) Hr Hm) as Hc.
   rewrite Hre in Hc. rewrite conv_sites_ok in Hc. specialize (Hc s Hs). apply conv_site_ok in Hc.
   destruct Hc as [_ Hc]. destruct (Hc y Hy) as [<-|HyS]; [now left|right].
-  destruct (in_unit u0 y) eqn:Eu.
-  - left. apply Hchar. auto.
-  - right. unfold split_foreign. apply andb_true_iff. split; [now apply mem_n_iff|].
-    unfold in_unit in Eu. destruct (to_unit_offset u0 y); [discriminate|reflexivity].
+  apply Hchar. now apply own_offsets_in.
+Qed.
+
+(* a reference from a reserved DIE of the first unit to a reachable DIE of ANOTHER unit of the .dwo section is
+   a .debug_info-form reference, its conversion fails with InvalidDebugInfoRef, and the split conversion does
+   not succeed - the error ConvertUnit::convert_split reports for it *)
+Lemma split_foreign_ref_is_error_full : forall (dbg : bool) (req : N -> bool) (u0 : unitd) (us : list unitd) S,
+  wf_offsets (u0 :: us) -> wf_layout (u0 :: us) ->
+  reserved filter_refs dbg req (u0 :: us) = Ok S ->
+  forall e par s y, In (e, par) (unit_pairs u0) -> In (sec u0 (e_off e)) S ->
+    In s (e_sites e) -> In y (conv_refs u0 s) -> split_foreign u0 S y = true ->
+    site_unit_relative s = false /\
+    conv_site u0 (root_off u0 :: own_offsets u0 S) s = Err CInvalidDebugInfoRef /\
+    forall out, convert_split_filtered filter_refs dbg req (u0 :: us) <> Ok out.
+Proof.
+  intros dbg req u0 us S Hwf Hlay HS e par s y Hp HeS Hs Hy Hf.
+  unfold split_foreign in Hf. apply andb_true_iff in Hf. destruct Hf as [HyS Hout].
+  assert (Hnu : in_unit u0 y = false).
+  { unfold in_unit. destruct (to_unit_offset u0 y); [discriminate|reflexivity]. }
+  assert (Hocc : occurs (u0 :: us) u0 e par) by (split; [now left|exact Hp]).
+  assert (Hroot : in_unit u0 (root_off u0) = true).
+  { destruct Hlay as [_ Hins]. destruct (Hins _ _ _ Hocc) as [H1 H2]. apply in_unit_iff. unfold root_off, sec, unit_end. lia. }
+  assert (Hnot : ~ In y (root_off u0 :: own_offsets u0 S)).
+  { intros [<-|H]; [congruence|]. apply own_offsets_in in H. destruct H. congruence. }
+  assert (Hrel : site_unit_relative s = false).
+  { destruct (site_unit_relative s) eqn:E; [|reflexivity].
+    pose proof (unit_relative_target_in_unit u0 s y E (filter_refs_complete u0 s y Hy)). congruence. }
+  assert (Hsite : conv_site u0 (root_off u0 :: own_offsets u0 S) s = Err CInvalidDebugInfoRef).
+  { destruct s as [car v]. unfold conv_site, conv_refs in *. cbn [s_car s_val] in *.
+    assert (Hi : In y [v] -> convert_debug_info_ref (root_off u0 :: own_offsets u0 S) v = Err CInvalidDebugInfoRef).
+    { intros [<-|[]]. unfold convert_debug_info_ref.
+      destruct (mem_n v (root_off u0 :: own_offsets u0 S)) eqn:Em; [apply mem_n_iff in Em; contradiction|reflexivity]. }
+    destruct car as [| |nest op|k nest op]; cbn [site_unit_relative s_car] in Hrel; try discriminate; auto;
+      destruct op; cbn [op_is_info negb] in Hrel; try discriminate; cbn [conv_op conv_op_refs] in *; auto. }
+  split; [exact Hrel|]. split; [exact Hsite|].
+  intros out Hrun.
+  destruct (split_units_full filter_refs dbg req u0 us Hwf Hlay) as [S' [out' [HS' [_ [Hchar Heq]]]]].
+  rewrite HS in HS'. inversion HS'; subst S'.
+  assert (He : In (sec u0 (e_off e)) (map fst out)).
+  { rewrite (Heq _ Hrun). apply Hchar. split; [exact HeS|].
+    destruct Hlay as [_ Hins]. destruct (Hins _ _ _ Hocc) as [H1 H2]. apply in_unit_iff. unfold sec, unit_end. lia. }
+  destruct (split_refs_full dbg req u0 us out Hwf Hlay Hrun e par s y Hp He Hs Hy) as [->|Hin]; [congruence|].
+  rewrite (Heq _ Hrun) in Hin. apply Hchar in Hin. destruct Hin. congruence.
 Qed.
 
 (* ------------------------------------------------------------------------------------------ *)
-(* the known class is inhabited: a .dwo section with two units, a variable of the first unit whose DW_AT_type is
-   a DW_FORM_ref_addr reference to a struct of the second unit *)
+(* a .dwo section with two units, a variable of the first unit whose DW_AT_type is a DW_FORM_ref_addr reference
+   to a struct of the second unit (the input of the repaired defect) *)
 Definition sx_var : entry :=
   {| e_off := 21; e_tag := 52; e_decl := false; e_sites := [ {| s_car := CAttrInfo; s_val := 131 |} ] |}.
 Definition sx_ns : entry := {| e_off := 21; e_tag := 57; e_decl := false; e_sites := [] |}.
@@ -120,15 +157,15 @@ Proof.
       repeat (destruct Hin as [H|Hin]; [inversion H; subst; cbn; split; reflexivity|]); destruct Hin.
 Qed.
 
-Lemma split_dangling_witness :
+Lemma split_foreign_example :
   wf_offsets sx_units /\ wf_layout sx_units /\
   reserved filter_refs true (fun x => x =? 21) sx_units = Ok [21; 121; 131] /\
-  convert_split_filtered filter_refs true (fun x => x =? 21) sx_units = Ok [(21, 11)] /\
-  convert_split_filtered filter_refs false (fun x => x =? 21) sx_units = Ok [(21, 11)] /\
-  In 131 (conv_refs sx_u0 {| s_car := CAttrInfo; s_val := 131 |}) /\
   split_foreign sx_u0 [21; 121; 131] 131 = true /\
+  convert_split_filtered filter_refs true (fun x => x =? 21) sx_units = Err CInvalidDebugInfoRef /\
+  convert_split_filtered filter_refs false (fun x => x =? 21) sx_units = Err CInvalidDebugInfoRef /\
+  convert_split_filtered_tol filter_refs true (fun x => x =? 21) sx_units = Ok [(21, 11)] /\
   convert_all [sx_u0] = Err CInvalidDebugInfoRef.
 Proof.
   split; [apply sx_wf|]. split; [apply sx_wf|].
-  repeat split; try (vm_compute; reflexivity). cbn. now left.
+  repeat split; vm_compute; reflexivity.
 Qed.
